@@ -5,13 +5,15 @@ import CloakModel.Lemmas.UserStoreSim
 The executable model `US.*` (`Model/UserStore.lean`, what the driver runs against the real bbolt-backed
 code) is parametric in `US.Facts`, the four places where the pinned tree `e2cb346` is defective:
 the length guards of the two decoders applied to `bucket.Get(..)`, the `return` after the
-"UID mismatch" error, and the refusal of non-positive rates before `mux.MakeValve`.
+"UID mismatch" error, the refusal of non-positive rates before `mux.MakeValve`, and whose memory the
+UID of a listed record is (a copy, or the key slice of the finished bbolt transaction).
 
 * `gen_structure` — the structural facts of `localmanager.go` / `api_router.go` the model relies on.
 * `gen_good` — the facts extracted from the tree being checked are the repaired ones.  **This is the
   obligation that fails on the pinned tree** (three genuine defects, see the witnesses at the end).
 * `c18_refines`, `c18_rejected_unchanged`, `c18_deleted_absent`, `c18_read_your_writes`,
   `c18_no_panic` — the property, for every operation sequence, proved from `gen_good`.
+* `c18_list_result_stable` — the value a `list` returned still reads the same after any later operations.
 * `pinned_*` — `decide` witnesses that the explicit pinned fact values break each statement; the
   harness replays the same three inputs on the real code. -/
 set_option linter.unusedSimpArgs false
@@ -56,14 +58,14 @@ theorem gen_structure :
     Gen.Store.delSiteNames = ["empty", "b64", "mgr"] ∧
     Gen.Store.delRet_empty = true ∧ Gen.Store.delRet_b64 = true ∧ Gen.Store.delDeletesUrlUID = true ∧
     Gen.Store.listSiteNames = ["mgr", "marshal"] ∧ Gen.Store.listRet_mgr = true ∧
-    Gen.Store.valveCapacityIsRate = true := by
+    Gen.Store.valveCapacityIsRate = true ∧ Gen.Store.getUIDIsCallersArgument = true := by
   decide
 
 /-- **The tree being checked is repaired at the four places**: an absent key decodes as 0 without
 indexing, a complete value is decoded, the "UID mismatch" error returns, and non-positive rates are
 refused before the token buckets are built.  (Fails on the pinned tree.) -/
 theorem gen_good : Good genFacts := by
-  refine ⟨?_, ?_, ?_, ?_, ?_, ?_⟩
+  refine ⟨?_, ?_, ?_, ?_, ?_, ?_, ?_⟩
   · show Gen.Store.decGuard_u64 0 = true; decide
   · show Gen.Store.decGuard_u64 8 = false; decide
   · show Gen.Store.decGuard_u32 0 = true; decide
@@ -73,6 +75,7 @@ theorem gen_good : Good genFacts := by
     show Gen.Store.valveGuard up down = true ↔ _
     unfold Gen.Store.valveGuard
     gen_cmp
+  · show Gen.Store.listUIDIsCopy = true; decide
 
 /-! ## 2. The abstract specification is a keyed store (what "exactly what the sequence implies" means) -/
 
@@ -201,6 +204,32 @@ theorem c18_no_panic (ops : List Op) (hw : ∀ op ∈ ops, op.WF) (op : Op) (hop
   rw [(step_sim genFacts gen_good _ hs op hop).2.1]
   exact spec_no_panic _ _ _
 
+/-! ### the value a read returned stays what the sequence implied -/
+
+/-- a list result whose UIDs are copies reads back as it was returned, whatever has happened to the database
+mapping since -/
+theorem reread_own (F : Facts) (hc : F.listCopiesUID = true) (mem : Bytes → Bytes) (l : List (Bytes × Rec)) :
+    rereadList mem (listHeld F l) = l := by
+  induction l with
+  | nil => rfl
+  | cons p r ih =>
+    simp only [rereadList, listHeld, List.map_cons, List.map_map] at ih ⊢
+    rw [ih]
+    simp [hc, Held.read]
+
+/-- **C18 (a read returns what the sequence implies — and keeps doing so).** After any operation sequence, the
+value `ListAllUsers` returns is the specification's list, and looking at that same value again after any
+further operations — whatever bbolt has done to its pages in the meantime (`mem` arbitrary: commits recycle
+freed pages, closing unmaps the file) — still gives exactly what was returned. -/
+theorem c18_list_result_stable (ops : List Op) (hw : ∀ op ∈ ops, op.WF) (l : List (Bytes × Rec))
+    (hl : (step genFacts (run genFacts [] ops).1 .list).2 = .users l) (mem : Bytes → Bytes) :
+    l = (Spec.run [] ops).1 ∧ rereadList mem (listHeld genFacts l) = l := by
+  refine ⟨?_, reread_own genFacts gen_good.copy mem l⟩
+  have hs := reachable_wf ops hw
+  have h := (step_sim genFacts gen_good _ hs .list trivial).2.1
+  rw [hl, (c18_refines ops hw).2] at h
+  simpa [Spec.step] using h
+
 /-! ## 4. Non-vacuity -/
 
 def uidA : Bytes := [1, 2, 3, 4, 5, 6, 7, 8, 9, 10, 11, 12, 13, 14, 15, 16]
@@ -228,7 +257,7 @@ example : (∀ op ∈ demo, op.WF) ∧
       simp [Op.WF, InRange, onlyCap, rest, In32, In64]
   · decide
 
-/-! ## 5. The pinned tree: each of the three defects refutes the statement (explicit fact values) -/
+/-! ## 5. The pinned tree: each of the four defects refutes the statement (explicit fact values) -/
 
 theorem pinned_not_good : ¬ Good pinnedFacts := fun h => by
   have := h.ret; simp [pinnedFacts] at this
@@ -255,8 +284,26 @@ connects — also with the decoders and the handler already repaired -/
 theorem pinned_nonpositive_rate_panics :
     let full : Info := ⟨uidA, some 1, some 0, some 5, some 5, some 5, some 100⟩
     (step pinnedFacts (postHlr pinnedFacts [] (.ok uidA) (.ok full)).1 (.getUser uidA 50)).2 = .panic .tokenBucket ∧
-    (step ⟨fun l => decide (l < 8), fun l => decide (l < 4), true, fun _ _ => false⟩
+    (step ⟨fun l => decide (l < 8), fun l => decide (l < 4), true, fun _ _ => false, false⟩
       (postHlr pinnedFacts [] (.ok uidA) (.ok full)).1 (.getUser uidA 50)).2 = .panic .tokenBucket := by
+  decide
+
+/-- (d) `ListAllUsers` hands out the key slices of its finished read transaction: once a later commit has
+recycled the page (the harness observes exactly this after two further writes: the 16 bytes now show a page
+header) the list that was returned for `[uidA]` no longer says `uidA` -/
+theorem pinned_list_result_unstable :
+    let r : Rec := ⟨1, 2, 3, 4, 5, 6⟩
+    rereadList (fun _ => [1, 0, 0, 0, 0x5e, 0, 0, 0, 0x10, 0, 0, 0, 0x3e, 0, 0, 0]) (listHeld pinnedFacts [(uidA, r)]) ≠ [(uidA, r)] ∧
+    -- as long as the window still shows the transaction's bytes the defect is invisible
+    rereadList id (listHeld pinnedFacts [(uidA, r)]) = [(uidA, r)] := by
+  decide
+
+/-- the statement of `c18_list_result_stable` is **false** for the pinned facts -/
+theorem pinned_list_stable_false :
+    ¬ ∀ (l : List (Bytes × Rec)) (mem : Bytes → Bytes), rereadList mem (listHeld pinnedFacts l) = l := by
+  intro h
+  have h1 := h [(uidA, ⟨1, 2, 3, 4, 5, 6⟩)] (fun _ => [])
+  revert h1
   decide
 
 /-- the statement of `c18_refines` is **false** for the pinned facts: (a) and (b) each give a well-formed
@@ -289,3 +336,4 @@ end C18
 #print axioms C18.c18_no_panic
 #print axioms C18.c18_rejected_unchanged
 #print axioms C18.gen_structure
+#print axioms C18.c18_list_result_stable
